@@ -173,6 +173,78 @@ Theorem C42_life_source_single_pass : forall name ms0 fwd0 t ops x,
 Proof. exact life_source_single_pass. Qed.
 Print Assumptions C42_life_source_single_pass.
 
+(* The query. trig_query ops is read off the history alone: the query of the Start request that opened the current
+   period between Start and Stop (Handler.Start(onDemand, query), called by the path with the query of the describe /
+   add-reader request that found the source stopped). After EVERY history of starts with any queries (empty or not, in
+   any order), stops, failures, retries and reloads, the handler's query is that one, and a running instance was given
+   the substitution of the template with the current groups and exactly that query: never the query of an earlier
+   period, never a default. *)
+Theorem C42_life_source_query : forall name ms0 fwd0 t ops x,
+  p_src (run (init name ms0 fwd0 (Some t)) ops) = Some x ->
+  s_running x = trig_running ops /\ s_query x = trig_query ops /\
+  (s_running x && s_alive x = true -> s_cur x = resolve_source t (cur_ms ms0 ops) (trig_query ops)).
+Proof. exact life_source_query. Qed.
+Print Assumptions C42_life_source_query.
+
+(* every instance created by any step (first instance of a start, restart after a change of groups, retry after a
+   failure) is given the groups current after the step and the query of the request that triggered the start *)
+Theorem C42_life_source_events_query : forall name ms0 fwd0 t ops o s' evs,
+  step (run (init name ms0 fwd0 (Some t)) ops) o = (s', evs) ->
+  Forall (fun v => v = resolve_source t (cur_ms ms0 (ops ++ [o])) (trig_query (ops ++ [o]))) evs.
+Proof. exact life_source_events_query. Qed.
+Print Assumptions C42_life_source_events_query.
+
+(* every start substitutes exactly the query of the request that triggered it: after any history that leaves the
+   source stopped, Start q creates one instance, given the current groups and q (whatever was stored before) *)
+Theorem C42_life_source_start : forall name ms0 fwd0 t ops q,
+  trig_running ops = false ->
+  snd (step (run (init name ms0 fwd0 (Some t)) ops) (OSrcStart q)) = [resolve_source t (cur_ms ms0 ops) q].
+Proof. exact life_source_start. Qed.
+Print Assumptions C42_life_source_start.
+
+(* ... inside the guard: the single left-to-right pass with q (no condition on q: nothing inside it is replaced) *)
+Theorem C42_life_source_start_single_pass : forall name ms0 fwd0 t ops q,
+  trig_running ops = false ->
+  template_ok (src_cfg (cur_ms ms0 ops)) t = true -> Forall dollar_free (cur_ms ms0 ops) ->
+  snd (step (run (init name ms0 fwd0 (Some t)) ops) (OSrcStart q)) = [single_pass_source t (cur_ms ms0 ops) q].
+Proof. exact life_source_start_single_pass. Qed.
+Print Assumptions C42_life_source_start_single_pass.
+
+(* the rule that decides what Start stores as the query is a parameter of src_step_store; the code's rule
+   (s.query = query) gives the model's step *)
+Theorem C42_life_store_code : forall s o, src_step_store store_code s o = src_step s o.
+Proof. exact store_code_is_step. Qed.
+Print Assumptions C42_life_store_code.
+
+(* "an empty query does not overwrite the stored one" (seed C42-c) is refuted: rtsp://$G1:8554/$G2?$MTX_QUERY,
+   Start token=abc, Stop, Start "" gives rtsp://host:8554/live?token=abc where rtsp://host:8554/live? is due *)
+Theorem C42_life_nonempty_store_refuted :
+  let ops := [OSrcStart wq_q1; OSrcStop; OSrcStart []] in
+  src_events_with (src_step_store store_nonempty) (src_init wq_t wq_ms) ops = [[wq_base ++ wq_q1]; []; [wq_base ++ wq_q1]] /\
+  src_events_with src_step (src_init wq_t wq_ms) ops = [[wq_base ++ wq_q1]; []; [wq_base]] /\
+  resolve_source wq_t wq_ms (trig_query ops) = wq_base /\ template_ok (src_cfg wq_ms) wq_t = true.
+Proof. exact store_nonempty_refuted. Qed.
+Print Assumptions C42_life_nonempty_store_refuted.
+
+(* "the first query is kept" is refuted: Start token=abc, Stop, Start user=x *)
+Theorem C42_life_first_store_refuted :
+  let ops := [OSrcStart wq_q1; OSrcStop; OSrcStart wq_q2] in
+  src_events_with (src_step_store store_first) (src_init wq_t wq_ms) ops = [[wq_base ++ wq_q1]; []; [wq_base ++ wq_q1]] /\
+  src_events_with src_step (src_init wq_t wq_ms) ops = [[wq_base ++ wq_q1]; []; [wq_base ++ wq_q2]] /\
+  resolve_source wq_t wq_ms (trig_query ops) = wq_base ++ wq_q2.
+Proof. exact store_first_refuted. Qed.
+Print Assumptions C42_life_first_store_refuted.
+
+(* non-vacuity of trig: the period's query survives a failure, a retry and a reload, and ends with the Stop *)
+Example C42_life_trig_example :
+  trig_query [OSrcStart [97]; OSrcFail; OReload (Some w_ms2) []; OSrcRetry] = [97] /\
+  trig_running [OSrcStart [97]; OSrcFail; OSrcRetry] = true /\
+  trig_query [OSrcStart [97]; OSrcStop; OSrcStart []] = [] /\
+  trig_running [OSrcStart [97]; OSrcStop] = false /\
+  snd (step (run (init w_name w_ms1 [] (Some wq_t)) [OSrcStart wq_q1; OSrcFail; OReload (Some wq_ms) []]) OSrcRetry) =
+    [wq_base ++ wq_q1].
+Proof. vm_compute. repeat split. Qed.
+
 (* the hook environment computed at any later launch: exactly G1..Gn of the current groups *)
 Theorem C42_life_env : forall name ms0 fwd0 tmpl ops,
   let ms := cur_ms ms0 ops in
